@@ -76,8 +76,8 @@ def shape_of(struct_fields):
         return f"S4 {w}", {"s": (fs[0][1], ["s0", "s1", "s2", "s3"])}, ("S4", w)
     if names == ["s"] and fs[0][1] == ("arr", "u64", 8):
         return "S8", {"s": (fs[0][1], [f"s{i}" for i in range(8)])}, ("S8", 64)
-    if names == ["x", "y", "z", "w"] and all(t == "u32" for _, t in fs):
-        return "S4 32", {"x": ("u32", "s0"), "y": ("u32", "s1"), "z": ("u32", "s2"), "w": ("u32", "s3")}, ("S4", 32)
+    if names == ["x", "y", "z", "w"] and all(t in ("u32", "w32") for _, t in fs):
+        return "S4 32", {n: (t, f"s{i}") for i, (n, t) in enumerate(fs)}, ("S4", 32)
     if names == ["x"] and fs[0][1] == "u64":
         return "BitVec 64", {"x": ("u64", None)}, ("SM", 64)
     raise Unsupported(f"state shape {names}")
